@@ -90,7 +90,7 @@ func spec_asReturnStmt(n ast.Node) *ast.ReturnStmt { r, _ := n.(*ast.ReturnStmt)
 
 //@ func funcResultsResolver.resultsFromAstAt
 //@   trusted
-//@   props C14 C05
+//@   props C14 C05:frame
 //@   fnvalue-calllog 7
 //@   lit 6 requires yield != nil
 //@   lit 6 ensures spec_asReturnStmt(node) != nil ==> len(spec_calls()) == len(old(spec_calls()))+1
@@ -222,7 +222,7 @@ func spec_knownShape(p *pkgInfo, sig *types.Signature) bool {
 }
 
 //@ func pkgInfo.ResultsOf
-//@   props C14 C05
+//@   props C14 C05:frame
 //@   requires p != nil && p.Package != nil && p.Package.TypesInfo != nil && p.u != nil && typeFunc != nil
 //@   assume spec_isSig(typeFunc.Type())
 //@   note (assume) go/types: the type of a *types.Func is a *types.Signature
@@ -341,7 +341,7 @@ func spec_methodsOK(p *pkgInfo) bool {
 }
 
 //@ func pkgInfo.MethodsOf
-//@   props C13 C05
+//@   props C13 C05:frame
 //@   pure
 //@   requires p != nil && n != nil && spec_methodsOK(p)
 //@   ensures ptr ==> eq(result, p.methods[n.Origin()])
@@ -352,17 +352,17 @@ func spec_methodsOK(p *pkgInfo) bool {
 //@   note MethodsOf(T, true) is the list recorded for T's origin type (so generic T works); MethodsOf(T, false) exactly its value-receiver methods
 
 //@ func pkgInfo.Type
-//@   props C13 C05
+//@   props C13 C05:frame
 //@   pure
 //@   requires p != nil
 //@   ensures result == p.types[n]
 //@ func pkgInfo.Types
-//@   props C13 C05
+//@   props C13 C05:frame
 //@   pure
 //@   requires p != nil
 //@   ensures eq(result, p.types)
 //@ func pkgInfo.Constant
-//@   props C13 C05
+//@   props C13 C05:frame
 //@   pure
 //@   requires p != nil
 //@   ensures result == p.constants[n]
@@ -377,7 +377,7 @@ func spec_methodsOK(p *pkgInfo) bool {
 //@   requires p != nil
 //@   ensures result == p.funcs[n]
 //@ func pkgInfo.Functions
-//@   props C13 C05
+//@   props C13 C05:frame
 //@   pure
 //@   requires p != nil
 //@   ensures eq(result, p.funcs)
@@ -391,7 +391,7 @@ func spec_importsOK(p *pkgInfo) bool {
 }
 
 //@ func pkgInfo.Imports
-//@   props C13 C05
+//@   props C13 C05:frame
 //@   requires p != nil && p.Package != nil && p.u != nil && spec_importsOK(p)
 //@   assigns p.imports
 //@   ensures eq(result, p.imports) && spec_importsOK(p)
@@ -431,7 +431,7 @@ func spec_importsOK(p *pkgInfo) bool {
 //@   ensures result == p.Package.Fset.Position(pos)
 
 //@ func pkgInfo.File
-//@   props C13 C14 C04 C05
+//@   props C13 C14 C04 C05:frame
 //@   pure
 //@   requires p != nil && p.Package != nil
 //@   requires forall i int :: 0 <= i && i < len(p.Package.Syntax) ==> p.Package.Syntax[i] != nil
@@ -440,7 +440,7 @@ func spec_importsOK(p *pkgInfo) bool {
 //@   note LocateInPackage-style look-up inside one package: the FIRST file whose extent contains pos; nil exactly when no file of the package contains it
 
 //@ func pkgInfo.Decl
-//@   props C13 C14 C04 C05
+//@   props C13 C14 C04 C05:frame
 //@   pure
 //@   requires p != nil && p.Package != nil
 //@   requires forall i int :: 0 <= i && i < len(p.Package.Syntax) ==> p.Package.Syntax[i] != nil
@@ -449,7 +449,7 @@ func spec_importsOK(p *pkgInfo) bool {
 //@   note a declaration is answered only if its extent contains pos (go/parser: the declarations of a file are non-nil - assumed)
 
 //@ func pkgInfo.Eval
-//@   props C14 C05
+//@   props C14 C05:frame
 //@   requires p != nil && p.Package != nil && expr != nil
 //@   noglobalstate
 //@   assigns nothing
@@ -826,7 +826,7 @@ func spec_hasTrailingAt(p *pkgInfo, pos token.Pos) bool {
 //@   ensures !(deltaLines == 0 && spec_hasTrailingAt(p, pos)) ==> result == spec_leadingAt(p, pos, deltaLines)
 
 //@ func pkgInfo.Doc
-//@   props C12 C06 C05
+//@   props C12 C06 C05:frame
 //@   pure
 //@   requires p != nil && p.Package != nil && p.Package.Fset != nil
 //@   ensures result0 != nil
@@ -836,7 +836,7 @@ func spec_hasTrailingAt(p *pkgInfo, pos token.Pos) bool {
 //@   note Doc(pos) = the tags and remaining lines of the LEADING group indexed for the line directly above pos (nothing if there is none); it is a pure observer: no memo, every call recomputes from the index
 
 //@ func pkgInfo.Comment
-//@   props C12 C05
+//@   props C12 C05:frame
 //@   pure
 //@   requires p != nil && p.Package != nil && p.Package.Fset != nil
 //@   ensures spec_hasTrailingAt(p, pos) ==> eq(result, spec_groupLines(spec_trailingAt(p, pos)))
